@@ -102,8 +102,10 @@ package sessions
 //@     do restored = restored + ite(inloop == 2, 1, 0)
 //@   ensures[C10:all-cached-cookies-restored] restored == len(cachedCookies)
 //@   loop 1
+//@     at for _, c := range existingCookies
 //@     invariant[C10:client-cookies-kept-except-session] phase == 2 && restored == 0 && forall(j, 0, idx + 1, kept[j] <==> existingCookies[j].Name != h.c.sessionCookieName) && forall(j, idx + 1, len(existingCookies), !kept[j])
 //@   loop 2
+//@     at for _, c := range cachedCookies
 //@     invariant[C10:cached-cookies-in-order] phase == 2 && restored == idx + 1 && forall(j, 0, len(existingCookies), kept[j] <==> existingCookies[j].Name != h.c.sessionCookieName)
 
 // ServeHTTP: the jar consulted and the writer handed on are those of the session id presented by this very request;
